@@ -1,6 +1,6 @@
 //! Operation language of histories and the proptest strategies generating them.
 
-use crate::reg::{Enc, QMode, ENCS};
+use crate::reg::{Enc, PTerm, QMode, ENCS, PTERMS};
 use proptest::prelude::*;
 use serde::{Deserialize, Serialize};
 
@@ -35,6 +35,7 @@ pub enum Op {
     EntryAdd { w: u8, t: u16, comp: u8, p: u32 },
     EntryRemove { w: u8, t: u16, comp: u8 },
     Query { w: u8, q: u16, mode: QMode, salt: Option<u32> },
+    ParQuery { w: u8, q: u16, pool: u8, term: PTerm, salt: Option<u32> },
     EntryQuery { w: u8, t: u16, q: u16, salt: Option<u32> },
     EntriesQuery { w: u8, e: u16, ts: Vec<u16>, salt: Option<u32> },
     Reserve { w: u8, shape: u16, n: u16 },
@@ -59,6 +60,7 @@ impl Op {
             Op::EntryAdd { .. } => "EntryAdd",
             Op::EntryRemove { .. } => "EntryRemove",
             Op::Query { .. } => "Query",
+            Op::ParQuery { .. } => "ParQuery",
             Op::EntryQuery { .. } => "EntryQuery",
             Op::EntriesQuery { .. } => "EntriesQuery",
             Op::Reserve { .. } => "Reserve",
@@ -85,6 +87,9 @@ pub struct Profile {
     pub entry_add: u32,
     pub entry_remove: u32,
     pub query: u32,
+    pub par_query: u32,
+    /// allow (rare) batches of thousands of rows
+    pub big_batches: bool,
     pub entry_query: u32,
     pub entries_query: u32,
     pub reserve: u32,
@@ -116,6 +121,8 @@ impl Profile {
             entry_add: 8,
             entry_remove: 6,
             query: 6,
+            par_query: 2,
+            big_batches: false,
             entry_query: 3,
             entries_query: 3,
             reserve: 2,
@@ -178,6 +185,17 @@ impl Profile {
                 p.remove = 12;
                 p.query = 3;
             }
+            "C09" => {
+                p.par_query = 30;
+                p.query = 2;
+                p.extend = 16;
+                p.insert = 10;
+                p.big_batches = true;
+                p.round_trip = 1;
+                p.clone_to = 1;
+                p.clone_from = 1;
+                p.max_ops = 40;
+            }
             "C10" => {
                 p.clone_to = 8;
                 p.clone_from = 8;
@@ -220,6 +238,16 @@ fn world_sel(bias: u32) -> impl Strategy<Value = u8> {
         bias => Just(0u8),
         (100 - bias) / 2 + 1 => Just(1u8),
         (100 - bias) / 2 + 1 => Just(2u8),
+    ]
+}
+
+fn nsel_big() -> impl Strategy<Value = NSel> {
+    prop_oneof![
+        6 => (0u16..8).prop_map(NSel::Exact),
+        3 => Just(NSel::FreePlus1),
+        6 => (8u16..70).prop_map(NSel::Exact),
+        2 => (70u16..600).prop_map(NSel::Exact),
+        1 => (600u16..6000).prop_map(NSel::Exact),
     ]
 }
 
@@ -266,13 +294,15 @@ pub fn op_strategy(p: &Profile) -> BoxedStrategy<Op> {
     let rts = p.rt_shadow;
     let mut v: Vec<(u32, BoxedStrategy<Op>)> = Vec::new();
     v.push((p.insert, (world_sel(b), shape_sel(few), 0u8..3, any::<u32>()).prop_map(|(w, shape, order, p)| Op::Insert { w, shape, order, p }).boxed()));
-    v.push((p.extend, (world_sel(b), shape_sel(few), 0u8..3, 0u8..3, nsel(), any::<u32>()).prop_map(|(w, shape, order, mode, n, p)| Op::Extend { w, shape, order, mode, n, p }).boxed()));
+    let ns = if p.big_batches { nsel_big().boxed() } else { nsel().boxed() };
+    v.push((p.extend, (world_sel(b), shape_sel(few), 0u8..3, 0u8..3, ns, any::<u32>()).prop_map(|(w, shape, order, mode, n, p)| Op::Extend { w, shape, order, mode, n, p }).boxed()));
     v.push((p.remove, (world_sel(b), any::<u16>()).prop_map(|(w, t)| Op::Remove { w, t }).boxed()));
     v.push((p.remove_stale, (world_sel(b), any::<u16>()).prop_map(|(w, t)| Op::RemoveStale { w, t }).boxed()));
     v.push((p.clear, world_sel(b).prop_map(|w| Op::Clear { w }).boxed()));
     v.push((p.entry_add, (world_sel(b), any::<u16>(), any::<u8>(), any::<u32>()).prop_map(|(w, t, comp, p)| Op::EntryAdd { w, t, comp, p }).boxed()));
     v.push((p.entry_remove, (world_sel(b), any::<u16>(), any::<u8>()).prop_map(|(w, t, comp)| Op::EntryRemove { w, t, comp }).boxed()));
     v.push((p.query, (world_sel(b), any::<u16>(), qmode(), prop::option::weighted(0.7, any::<u32>())).prop_map(|(w, q, mode, salt)| Op::Query { w, q, mode, salt }).boxed()));
+    v.push((p.par_query, (world_sel(b), any::<u16>(), 0u8..6, prop::sample::select(PTERMS.to_vec()), prop::option::weighted(0.7, any::<u32>())).prop_map(|(w, q, pool, term, salt)| Op::ParQuery { w, q, pool, term, salt }).boxed()));
     v.push((p.entry_query, (world_sel(b), any::<u16>(), any::<u16>(), prop::option::weighted(0.7, any::<u32>())).prop_map(|(w, t, q, salt)| Op::EntryQuery { w, t, q, salt }).boxed()));
     v.push((p.entries_query, (world_sel(b), any::<u16>(), prop::collection::vec(any::<u16>(), 1..6), prop::option::weighted(0.7, any::<u32>())).prop_map(|(w, e, ts, salt)| Op::EntriesQuery { w, e, ts, salt }).boxed()));
     v.push((p.reserve, (world_sel(b), shape_sel(few), prop_oneof![0u16..8, 0u16..200, 200u16..4096]).prop_map(|(w, shape, n)| Op::Reserve { w, shape, n }).boxed()));
